@@ -257,6 +257,29 @@ func VerifC19_ProcessorStop() {
 	verifReach("end")
 }
 
+// VerifC19_ProcessorWait: Wait is called before the results are collected (the result buffer
+// holds them all). When Wait returns every worker has exited: no worker is working, every
+// result is already in the buffer and the result channel is closed.
+func VerifC19_ProcessorWait() {
+	threads, nops := verifParam("threads"), verifParam("nops")
+	queue := make(chan Operator, nops)
+	p := NewProcessor(queue, nops, threads)
+	for i := 0; i < nops; i++ {
+		p.Process(verifOp{v: 100 + i})
+	}
+	p.Close()
+	p.Wait()
+	verifAssert(p.Working() == 0, "no-worker-working-after-wait")
+	verifAssert(len(p.out) == nops, "all-results-delivered-when-wait-returns")
+	total := 0
+	for range p.out { // terminates only if the channel has been closed
+		total++
+	}
+	verifAssert(total == nops, "one-result-per-operation")
+	verifObserve("c19w", threads, nops)
+	verifReach("end")
+}
+
 // ---------------------------------------------------------------------------------------
 // Map
 
